@@ -177,6 +177,15 @@ pub fn apply<B: Buf + ?Sized>(b: &mut B, op: &ROp, rest: &mut Vec<u8>, consumed:
     }
 }
 
+pub fn has_endless(s: &Spec) -> bool {
+    match s {
+        Spec::Endless => true,
+        Spec::Take(_, _, x) => has_endless(x),
+        Spec::Chain(_, a, b) => has_endless(a) || has_endless(b),
+        _ => false,
+    }
+}
+
 pub fn has_adapter(s: &Spec) -> bool {
     matches!(s, Spec::Take(..) | Spec::Chain(..))
 }
@@ -246,6 +255,9 @@ pub fn run_case(o: &mut Obs, spec: &Spec, ops: &[ROp], path: usize, fin: Final, 
     for op in ops {
         o.inc("steps");
         if let ROp::SetLimit(l) = op {
+            if *l > 2000 && has_endless(spec) {
+                continue; // the stand-in model of an endless source is only 4096 bytes long
+            }
             if let Spec::Take(_, _, inner) = spec {
                 if root.set_limit_opt(*l) {
                     // the root now exposes min(l, what is left of the inner)
@@ -403,6 +415,13 @@ pub fn gen_tree(r: &mut Rng, depth: usize, n: usize, salt: &mut u64) -> Spec {
     if depth == 0 || r.chance(1, 4) {
         *salt += 1;
         return gen_leaf(r, data(n, *salt));
+    }
+    if n <= 1000 && r.chance(1, 12) {
+        // a small window over header ++ endless zeros (saturating arithmetic in Chain / Take)
+        let la = r.below(n + 1).min(8);
+        let a = gen_tree(r, depth.saturating_sub(2), la, salt);
+        let inner = Spec::Chain(r.chance(1, 4), Box::new(a), Box::new(Spec::Endless));
+        return Spec::Take(n, r.chance(1, 4), Box::new(inner));
     }
     if r.chance(1, 2) {
         let la = r.below(n + 1);
